@@ -432,6 +432,33 @@ func resolveThroughLocals(v ssa.Value, scope []*ssa.Function) []ssa.Value {
 				out = append(out, d)
 				continue
 			}
+			// a struct that was copied as a whole from another local one (`*o = *o2`: a by-value receiver or
+			// parameter, the receiver a bound method was closed over): the fields stored into the original count
+			for i := 0; i < len(objs) && i < 16; i++ {
+				for _, r := range ssau.Referrers(objs[i]) {
+					st, ok := r.(*ssa.Store)
+					if !ok || st.Addr != ssa.Value(objs[i]) {
+						continue
+					}
+					for _, sd := range deepDefs(st.Val, scope) {
+						cp, isCp := sd.(*ssa.UnOp)
+						if !isCp || cp.Op != token.MUL {
+							continue
+						}
+						if o2, isAl := cp.X.(*ssa.Alloc); isAl {
+							dup := false
+							for _, o := range objs {
+								if o == o2 {
+									dup = true
+								}
+							}
+							if !dup {
+								objs = append(objs, o2)
+							}
+						}
+					}
+				}
+			}
 			n := 0
 			for _, f := range scope {
 				ssau.Instrs(f, func(in ssa.Instruction) {
